@@ -4,6 +4,9 @@
 // command at a time, so nothing runs concurrently with ForwardGlobalEpoch.
 //   epoch_seq --replay FILE
 //   epoch_seq --gen --seed S --count N --out DIR [--big]
+#include <fcntl.h>
+#include <unistd.h>
+
 #include <rapidcheck.h>
 #include <rapidcheck/state.h>
 
@@ -155,6 +158,19 @@ struct Sut {
 };
 
 std::string g_last_fail_trace;
+int g_cur_fd = -1;  // gen mode: the history executed so far is always on disk, so that a sanitizer abort can be replayed
+
+template <class S>
+void
+note(S &s, const std::string &line)
+{
+  s.trace += line;
+  if (g_cur_fd >= 0) {
+    const std::string t = "family epochseq\ncap " + std::to_string(DBGROUP_MAX_THREAD_NUM) + "\n" + s.trace;
+    (void)!pwrite(g_cur_fd, t.data(), t.size(), 0);
+    (void)!ftruncate(g_cur_fd, static_cast<off_t>(t.size()));
+  }
+}
 std::string g_last_fail_msg;
 
 void
@@ -228,7 +244,7 @@ struct Pin : Cmd {
   void
   run(const Model &m, Sut &s) const override
   {
-    s.trace += "Pin " + std::to_string(t) + " " + std::to_string(via) + "\n";
+    note(s, "Pin " + std::to_string(t) + " " + std::to_string(via) + "\n");
     size_t e = 0;
     s.h[t]->run([&] {
       if (via == 0) {
@@ -253,7 +269,7 @@ struct Unpin : Cmd {
   void
   run(const Model &, Sut &s) const override
   {
-    s.trace += "Unpin " + std::to_string(t) + "\n";
+    note(s, "Unpin " + std::to_string(t) + "\n");
     s.h[t]->run([&] { s.guard[t].reset(); });
   }
   void show(std::ostream &os) const override { os << "Unpin(" << t << ")"; }
@@ -270,7 +286,7 @@ struct Refresh : Cmd {
   void
   run(const Model &m, Sut &s) const override
   {
-    s.trace += "Refresh " + std::to_string(t) + " " + std::to_string(via) + "\n";
+    note(s, "Refresh " + std::to_string(t) + " " + std::to_string(via) + "\n");
     size_t e = 0;
     s.h[t]->run([&] {
       if (via == 0) {
@@ -304,7 +320,7 @@ struct Forward : Cmd {
   void
   run(const Model &m, Sut &s) const override
   {
-    s.trace += "Forward " + std::to_string(n) + "\n";
+    note(s, "Forward " + std::to_string(n) + "\n");
     Model mm = m;
     for (int k = 0; k < n; k++) {
       forward_once(mm, s);
@@ -323,7 +339,7 @@ struct ExitAndReplace : Cmd {
   void
   run(const Model &, Sut &s) const override
   {
-    s.trace += "ExitAndReplace " + std::to_string(t) + "\n";
+    note(s, "ExitAndReplace " + std::to_string(t) + "\n");
     s.h[t]->stop();
     s.h[t] = std::make_unique<Helper>();
   }
@@ -383,7 +399,7 @@ int
 main(int argc, char **argv)
 {
   std::string mode, file, out;
-  uint64_t seed = 1, count = 100;
+  uint64_t seed = 1, count = 100, start = 0;
   bool big = false;
   for (int i = 1; i < argc; i++) {
     std::string a = argv[i];
@@ -394,7 +410,8 @@ main(int argc, char **argv)
     else if (a == "--count") count = strtoull(next().c_str(), nullptr, 10);
     else if (a == "--out") out = next();
     else if (a == "--big") big = true;
-    else if (a == "--profile" || a == "--start") next();
+    else if (a == "--start") start = strtoull(next().c_str(), nullptr, 10);
+    else if (a == "--profile") next();
   }
   if (mode == "replay") {
     Stats st;
@@ -408,6 +425,9 @@ main(int argc, char **argv)
     return 2;
   }
   mkdir(out.c_str(), 0777);
+  g_cur_fd = open((out + "/cur.case").c_str(), O_CREAT | O_RDWR | O_TRUNC, 0644);
+  // a restart after an abnormal end (start > 0) continues with a different stream
+  if (start > 0) seed = wk::splitmix(seed ^ wk::splitmix(start));
   const std::string params = "seed=" + std::to_string(seed) + " max_success=" + std::to_string(count) + " max_size=" + std::to_string(big ? 300 : 120) + " max_discard_ratio=50";
   setenv("RC_PARAMS", params.c_str(), 1);
   wk::Counters C;
@@ -436,7 +456,7 @@ main(int argc, char **argv)
     C.viols.push_back({"EPOCHSEQ", g_last_fail_msg, fn, 0});
     C.evaluations++;
   }
-  C.next_index = count;
+  C.next_index = start + count;
   C.done = true;
   wk::write_file(out + "/result.json", C.to_json());
   return 0;
